@@ -37,7 +37,7 @@ ENOENT  == <<"!ENOENT">>
 ELOOP   == <<"!ELOOP">>
 ENOTDIR == <<"!ENOTDIR">>
 IsErr(q) == q \in {ENOENT, ELOOP, ENOTDIR}
-Fuel == 10
+Fuel == 41          \* the kernel follows at most 40 links in one resolution (measured here: a chain of 40 resolves, 41 gives ELOOP)
 
 RECURSIVE Res(_, _, _, _, _)
 Res(fs, done, rest, follow, fuel) ==
